@@ -32,8 +32,10 @@ Shapes == <<
   << <<"s", "a", 2>>, <<"a", "b", 4>>, <<"b", "a", 2>>, <<"b", "t", 2>> >>,     \* with a cycle
   << <<"0", "1", 7>> >>,                                                       \* single edge, numeric names
   << <<"x", "y", 1>>, <<"x", "z", 1>>, <<"y", "w", 1>>, <<"z", "w", 1>> >>,    \* diamond
-  << >> >>                                                                     \* the empty graph: count line 0, no edge lines
-ConsOf(sh) == CASE sh = 5 -> <<>> [] sh = 1 -> <<"a", "b", "c">> [] sh = 2 -> <<"s", "a", "b">> [] sh = 3 -> <<"0", "1">> [] sh = 4 -> <<"x", "y", "w">>
+  << >>,                                                                       \* the empty graph: count line 0, no edge lines
+  << <<"s", "b", 2>>, <<"s", "c", 1>>, <<"b", "c", 3>>, <<"c", "b", 1>>, <<"c", "t", 3>> >> >>   \* a source fanning into a cycle: two edges
+                                                                               \* from one node into the same component (width 2)
+ConsOf(sh) == CASE sh = 5 -> <<>> [] sh = 6 -> <<"s", "b", "c">> [] sh = 1 -> <<"a", "b", "c">> [] sh = 2 -> <<"s", "a", "b">> [] sh = 3 -> <<"0", "1">> [] sh = 4 -> <<"x", "y", "w">>
 
 Corruptions == {"none", "edge_2_fields", "edge_4_fields", "weight_not_numeric", "count_not_numeric", "count_trailing_token",
                 "constraint_absent_edge"}
